@@ -5,17 +5,24 @@ package liveness
 // C18 – cached liveness verdicts are never stale or flipped; the cache is bounded.
 //
 // Monitor: the real testers built by the real New()/Init() from a Config, with the unexported probe
-// function replaced by a scripted recorder.  Harness time is advanced by back-dating every cached
-// timestamp (entries are replaced, never mutated, under the cache's own lock) in steps of 20 min
-// against lifetimes of 30 min / 50 min, so every reachable harness age keeps 10 min of distance
-// from every lifetime and real elapsed time (µs..s) cannot flip an age comparison.  Nothing sleeps.
+// function replaced by a scripted recorder.  Harness time is advanced by back-dating the cachedTime
+// of every cached entry IN PLACE (all other fields of the entry are left as the code set them) while
+// nothing else runs.  The age the code computes is therefore (harness age + real time elapsed since
+// the entry was stored) >= harness age, so
+//
+//	harness age >= configured lifetime  =>  the entry must not be answered from the cache
+//
+// is exact and cannot be falsified by load (real time only makes entries older).  The other side
+// (an entry that is dropped although harness age + real elapsed < lifetime) is legal ("a cache may
+// always probe again") and is only counted.  Nothing sleeps.
 //
 // Reference (one-directional on hits):
 //   - an answer carrying ErrCachedPhantom with verdict v for address a is legal only if the cache
 //     for v is enabled, some probe of a returned v, and the LATEST such probe is younger than
 //     lifetime(v) in harness time (if the latest is too old, every earlier one is too); in the
-//     sequential phases additionally the implementation's own LRU key set must still hold a
-//     (an evicted / removed entry must not be served);
+//     sequential phases additionally (white box) the entry that answered must have been produced
+//     by a measurement whose verdict (the probe's bool, whatever error came with it) is v, and the
+//     implementation's own LRU key set must still hold a (an evicted entry must not be served);
 //   - any other answer must have called the probe exactly once, with that address, and must return
 //     the verdict that probe call returned (an error other than the probe's is only counted);
 //   - a cache with a configured capacity never reports Len() above it at a quiescent point, and
@@ -27,6 +34,7 @@ package liveness
 // harness frame for a repository frame.
 
 import (
+	"context"
 	"errors"
 	"fmt"
 	"math/bits"
@@ -37,6 +45,7 @@ import (
 	"strconv"
 	"strings"
 	"sync"
+	"syscall"
 	"testing"
 	"time"
 
@@ -44,13 +53,26 @@ import (
 )
 
 const (
-	verifC18Step      = 20 * time.Minute
-	verifC18Short     = "30m"
-	verifC18Long      = "50m"
+	verifC18Step = 20 * time.Minute
+	// lifetimes of the enumerated configurations are whole multiples of the step: ages land EXACTLY on the
+	// lifetime (must not be served any more), one step before it (well inside) and one step after it
+	verifC18Short     = "40m"
+	verifC18Long      = "60m"
 	verifC18MaxRealMs = 5 * 60 * 1000 // a history that took longer than this in real time is not judged
+	verifC18MaxAddrs  = 512
 )
 
-var verifC18Addrs = [8]string{"192.0.2.1", "2001:db8::2", "192.0.2.3", "198.51.100.4", "2001:db8::5", "203.0.113.6", "192.0.2.7", "2001:db8::8"}
+var verifC18Addrs = func() []string {
+	a := []string{"192.0.2.1", "2001:db8::2", "192.0.2.3", "198.51.100.4", "2001:db8::5", "203.0.113.6", "192.0.2.7", "2001:db8::8"}
+	for i := len(a); i < verifC18MaxAddrs; i++ {
+		if i%3 == 0 {
+			a = append(a, fmt.Sprintf("2001:db8:18::%x", i))
+		} else {
+			a = append(a, fmt.Sprintf("10.18.%d.%d", i/256, i%256))
+		}
+	}
+	return a
+}()
 
 var verifC18AddrIdx = func() map[string]int {
 	m := map[string]int{}
@@ -98,34 +120,58 @@ func verifC18Life(s string) time.Duration {
 	return d
 }
 
-// ---- scripted probe -----------------------------------------------------------------------------
+// ---- scripted probe outcomes: the whole (verdict × error class) product -------------------------------
 
-type verifC18ProbeErr struct {
-	n     int
-	live  bool
-	plain bool // a live host that answered with an ordinary dial error (the real probe's `return true, err`)
+type verifC18Timeout struct{}
+
+func (verifC18Timeout) Error() string   { return "i/o timeout" }
+func (verifC18Timeout) Timeout() bool   { return true }
+func (verifC18Timeout) Temporary() bool { return true }
+
+type verifC18Outcome struct {
+	live bool
+	err  error
+	name string
 }
 
-func (e *verifC18ProbeErr) Error() string {
-	return "verif scripted probe outcome #" + strconv.Itoa(e.n) + " live=" + strconv.FormatBool(e.live)
+// The measured verdict is the probe's bool, whatever error value accompanies it.  (ErrCachedPhantom
+// is never scripted: it is the marker of a cached answer.)
+var verifC18Outcomes = []verifC18Outcome{
+	{true, ErrLiveHost, "(true, ErrLiveHost)"},
+	{true, fmt.Errorf("%w: verif", ErrLiveHost), "(true, wrapped ErrLiveHost)"},
+	{true, &net.OpError{Op: "dial", Net: "tcp", Err: &verifC18SyscallError{"connect", syscall.ECONNREFUSED}}, "(true, dial: connection refused)"},
+	{true, nil, "(true, nil)"},
+	{true, NotLive, "(true, NotLive)"},
+	{false, NotLive, "(false, NotLive)"},
+	{false, fmt.Errorf("%w %v", NotLive, 750*time.Millisecond), "(false, wrapped NotLive)"},
+	{false, nil, "(false, nil)"},
+	{false, context.DeadlineExceeded, "(false, context.DeadlineExceeded)"},
+	{false, errors.New(NotLive.Error()), "(false, errors.New(NotLive.Error()))"},
+	{false, &net.OpError{Op: "dial", Net: "tcp", Err: verifC18Timeout{}}, "(false, dial: i/o timeout)"},
+	{false, ErrLiveHost, "(false, ErrLiveHost)"},
 }
 
-// Unwrap makes the scripted outcome look like the real probe's: NotLive for a host that is not
-// live; ErrLiveHost or an ordinary dial error (connection refused, ...) for a live one.
-func (e *verifC18ProbeErr) Unwrap() error {
-	if e.plain {
-		return nil
+// verifC18SyscallError is a harness-side ("verif") stand-in for *os.SyscallError (keeps the import list short).
+type verifC18SyscallError struct {
+	Syscall string
+	Err     error
+}
+
+func (e *verifC18SyscallError) Error() string { return "verif " + e.Syscall + ": " + e.Err.Error() }
+func (e *verifC18SyscallError) Unwrap() error { return e.Err }
+
+var verifC18KindsOf = func() (k [2][]int) {
+	for i, o := range verifC18Outcomes {
+		k[verifC18B2I(o.live)] = append(k[verifC18B2I(o.live)], i)
 	}
-	if e.live {
-		return ErrLiveHost
-	}
-	return NotLive
-}
+	return
+}()
 
 type verifC18Call struct {
 	addr string
 	live bool
 	err  error
+	kind int
 }
 
 func verifC18Install(t Tester, probe func(string) (bool, error)) (*CachedLivenessTester, error) {
@@ -140,33 +186,50 @@ func verifC18Install(t Tester, probe func(string) (bool, error)) (*CachedLivenes
 	return nil, fmt.Errorf("unknown tester type %T", t)
 }
 
-// verifC18Backdate makes every entry of the cache d older.  Entries are replaced (not mutated) under
-// the cache's own write lock, so readers that hold an old *cacheElement never see a write.
-func verifC18Backdate(c cache, d time.Duration) error {
+func verifC18Map(c cache) (map[string]*cacheElement, *sync.RWMutex, error) {
 	switch x := c.(type) {
 	case nil:
+		return nil, nil, nil
 	case *mapCache:
 		if x == nil {
-			return nil
+			return nil, nil, nil
 		}
-		x.m.Lock()
-		for k, e := range x.ipCache {
-			x.ipCache[k] = &cacheElement{cachedTime: e.cachedTime.Add(-d)}
-		}
-		x.m.Unlock()
+		return x.ipCache, &x.m, nil
 	case *lruCache:
 		if x == nil {
-			return nil
+			return nil, nil, nil
 		}
-		x.m.Lock()
-		for k, e := range x.ipCache {
-			x.ipCache[k] = &cacheElement{cachedTime: e.cachedTime.Add(-d)}
-		}
-		x.m.Unlock()
-	default:
-		return fmt.Errorf("unknown cache type %T", c)
+		return x.ipCache, &x.m, nil
 	}
+	return nil, nil, fmt.Errorf("unknown cache type %T", c)
+}
+
+// verifC18Backdate makes every entry of the cache d older: only cachedTime is changed, in place, under the
+// cache's write lock.  It is only ever called while no query is running (sequential phases; at the barrier
+// of the concurrent phase), so the lruCache's unlocked read of an element cannot overlap it.
+func verifC18Backdate(c cache, d time.Duration) error {
+	m, mu, err := verifC18Map(c)
+	if err != nil || m == nil {
+		return err
+	}
+	mu.Lock()
+	for _, e := range m {
+		e.cachedTime = e.cachedTime.Add(-d)
+	}
+	mu.Unlock()
 	return nil
+}
+
+// verifC18Entry returns the element the cache holds for key (nil if none).
+func verifC18Entry(c cache, key string) *cacheElement {
+	m, mu, err := verifC18Map(c)
+	if err != nil || m == nil {
+		return nil
+	}
+	mu.RLock()
+	e := m[key]
+	mu.RUnlock()
+	return e
 }
 
 func verifC18B2I(b bool) int {
@@ -180,10 +243,10 @@ func verifC18B2I(b bool) int {
 
 type verifC18StepRec struct {
 	Op     byte // 'q' 'a' 'c'
-	Addr   int8
-	Script bool
+	Addr   int16
+	Kind   int8 // scripted probe outcome (what the host would answer)
 	Port   uint16
-	K      int8 // advance steps
+	D      time.Duration // advance
 	Live   bool
 	Hit    bool
 	Probes int8
@@ -196,34 +259,52 @@ type verifC18Viol struct {
 	at       int
 }
 
+type verifC18Prod struct {
+	ptr  *cacheElement
+	live bool
+	kind int8
+}
+
+type verifC18Bits [verifC18MaxAddrs / 64]uint64
+
+func (b *verifC18Bits) verifSet(i int)      { b[i>>6] |= 1 << uint(i&63) }
+func (b *verifC18Bits) verifHas(i int) bool { return b[i>>6]&(1<<uint(i&63)) != 0 }
+func (b *verifC18Bits) verifCount() int {
+	n := 0
+	for _, w := range b {
+		n += bits.OnesCount64(w)
+	}
+	return n
+}
+
 type verifC18Seq struct {
-	cfg  verifC18Cfg
-	t    Tester
-	c    *CachedLivenessTester
-	life [2]time.Duration // [0]=non-live [1]=live; 0 = caching of that verdict disabled
-	capa [2]int
+	cfg   verifC18Cfg
+	t     Tester
+	c     *CachedLivenessTester
+	life  [2]time.Duration // [0]=non-live [1]=live; 0 = caching of that verdict disabled
+	capa  [2]int
+	naddr int // addresses in play (the reference's tables are reset up to here)
 
-	nextLive bool
+	nextKind int
 	calls    []verifC18Call
-	nprobe   int
 
-	now    int       // harness time in steps
-	last   [8][2]int // harness time of the latest probe of address i that returned verdict v (-1: never)
-	served [2]uint16 // addresses served from cache v since the last measurement (probe call)
+	now    time.Duration      // harness time
+	last   [][2]time.Duration // harness time of the latest probe of address i that returned verdict v (-1: never)
+	prod   [][2]verifC18Prod  // which measurement produced the entry that cache v holds for address i
+	served [2]verifC18Bits    // addresses served from cache v since the last measurement (probe call)
+	seen   verifC18Bits
 
 	trace []verifC18StepRec
 	viols []verifC18Viol
 	start time.Time
 
-	hits, probes, reprobes, hitWithProbe, errDiffers int
-	seen                                             uint16
+	hits, probes, reprobes, hitWithProbe, errDiffers, earlyDrops int
 }
 
 func (s *verifC18Seq) verifProbe(address string) (bool, error) {
-	s.nprobe++
-	e := &verifC18ProbeErr{n: s.nprobe, live: s.nextLive, plain: s.nextLive && s.nprobe%2 == 1}
-	s.calls = append(s.calls, verifC18Call{addr: address, live: s.nextLive, err: e})
-	return s.nextLive, e
+	o := verifC18Outcomes[s.nextKind]
+	s.calls = append(s.calls, verifC18Call{addr: address, live: o.live, err: o.err, kind: s.nextKind})
+	return o.live, o.err
 }
 
 // verifReset builds a fresh tester through the real constructor.
@@ -239,14 +320,23 @@ func (s *verifC18Seq) verifReset(cfg verifC18Cfg) error {
 	s.cfg, s.t, s.c = cfg, t, c
 	s.life = [2]time.Duration{verifC18Life(cfg.DurNon), verifC18Life(cfg.DurLive)}
 	s.capa = [2]int{cfg.CapNon, cfg.CapLive}
-	s.nextLive, s.calls, s.nprobe = false, s.calls[:0], 0
+	s.nextKind, s.calls = 0, s.calls[:0]
 	s.now = 0
-	for i := range s.last {
-		s.last[i] = [2]int{-1, -1}
+	if s.naddr == 0 {
+		s.naddr = 8
 	}
-	s.served = [2]uint16{}
+	if len(s.last) < s.naddr {
+		s.last = make([][2]time.Duration, s.naddr)
+		s.prod = make([][2]verifC18Prod, s.naddr)
+	}
+	for i := 0; i < s.naddr; i++ {
+		s.last[i] = [2]time.Duration{-1, -1}
+		s.prod[i] = [2]verifC18Prod{}
+	}
+	s.served = [2]verifC18Bits{}
+	s.seen = verifC18Bits{}
 	s.trace, s.viols = s.trace[:0], s.viols[:0]
-	s.hits, s.probes, s.reprobes, s.hitWithProbe, s.errDiffers, s.seen = 0, 0, 0, 0, 0, 0
+	s.hits, s.probes, s.reprobes, s.hitWithProbe, s.errDiffers, s.earlyDrops = 0, 0, 0, 0, 0, 0
 	s.start = time.Now()
 	return nil
 }
@@ -304,9 +394,10 @@ func (s *verifC18Seq) verifAfter(st verifC18StepRec) {
 	}
 }
 
-func (s *verifC18Seq) verifQuery(ai int, scriptLive bool, port uint16) {
+// verifQuery asks the tester about address ai; kind is what the host would answer if it were probed.
+func (s *verifC18Seq) verifQuery(ai int, kind int, port uint16) {
 	addr := verifC18Addrs[ai]
-	s.nextLive = scriptLive
+	s.nextKind = kind
 	s.calls = s.calls[:0]
 	// what the implementation's own LRU key sets hold right now (no recency update)
 	inLRU := [2]int8{-1, -1}
@@ -319,20 +410,25 @@ func (s *verifC18Seq) verifQuery(ai int, scriptLive bool, port uint16) {
 	gotLive, err := s.t.PhantomIsLive(addr, port)
 
 	hit := errors.Is(err, ErrCachedPhantom)
-	st := verifC18StepRec{Op: 'q', Addr: int8(ai), Script: scriptLive, Port: port, Live: gotLive, Hit: hit, Probes: int8(len(s.calls))}
+	st := verifC18StepRec{Op: 'q', Addr: int16(ai), Kind: int8(kind), Port: port, Live: gotLive, Hit: hit, Probes: int8(len(s.calls))}
 
 	// the reference learns about every measurement that was taken, whoever asked for it
 	for _, c := range s.calls {
 		s.probes++
-		s.served = [2]uint16{} // a measurement may insert (and evict): the served sets start over
+		s.served = [2]verifC18Bits{} // a measurement may insert (and evict): the served sets start over
 		if h, _, e := net.SplitHostPort(c.addr); e == nil {
-			if i, ok := verifC18AddrIdx[h]; ok {
-				if s.seen&(1<<uint(i)) != 0 {
+			if i, ok := verifC18AddrIdx[h]; ok && i < s.naddr {
+				if s.seen.verifHas(i) {
 					s.reprobes++
 				}
-				s.seen |= 1 << uint(i)
-				v := verifC18B2I(c.live)
-				s.last[i][v] = s.now
+				s.seen.verifSet(i)
+				s.last[i][verifC18B2I(c.live)] = s.now
+				// white box: an element that appeared for this address in either cache was produced by this measurement
+				for v := 0; v < 2; v++ {
+					if p := verifC18Entry(s.verifCacheOf(v), h); p != nil && p != s.prod[i][v].ptr {
+						s.prod[i][v] = verifC18Prod{ptr: p, live: c.live, kind: int8(c.kind)}
+					}
+				}
 			}
 		}
 	}
@@ -344,19 +440,26 @@ func (s *verifC18Seq) verifQuery(ai int, scriptLive bool, port uint16) {
 		}
 		v := verifC18B2I(gotLive)
 		vn := verifC18VName[v]
+		var pr *verifC18Prod
+		if p := verifC18Entry(s.verifCacheOf(v), addr); p != nil && p == s.prod[ai][v].ptr {
+			pr = &s.prod[ai][v]
+		}
 		switch {
 		case s.life[v] == 0:
 			s.verifViol("hit:disabled-cache:"+vn, fmt.Sprintf("%s answered from the cache as %s although caching of %s verdicts is disabled", addr, vn, vn))
+		case pr != nil && pr.live != gotLive:
+			s.verifViol("hit:flipped:"+vn, fmt.Sprintf("%s answered from the cache as %s by an entry that was produced by a measurement whose verdict was %s (probe returned %s)",
+				addr, vn, verifC18VName[verifC18B2I(pr.live)], verifC18Outcomes[pr.kind].name))
 		case s.last[ai][v] < 0:
 			s.verifViol("hit:unmeasured:"+vn, fmt.Sprintf("%s answered from the cache as %s although no probe of it ever returned %s", addr, vn, vn))
-		case time.Duration(s.now-s.last[ai][v])*verifC18Step >= s.life[v]:
-			s.verifViol("hit:stale:"+vn, fmt.Sprintf("%s answered from the cache as %s although the latest probe that returned %s is %v old (lifetime %v)", addr, vn, vn, time.Duration(s.now-s.last[ai][v])*verifC18Step, s.life[v]))
+		case s.now-s.last[ai][v] >= s.life[v]:
+			s.verifViol("hit:stale:"+vn, fmt.Sprintf("%s answered from the cache as %s although the latest probe that returned %s is %v old (configured lifetime %v)", addr, vn, vn, s.now-s.last[ai][v], s.life[v]))
 		case inLRU[v] == 0:
 			s.verifViol("hit:evicted:"+vn, fmt.Sprintf("%s answered from the %s cache although the cache's LRU no longer held it (evicted or removed)", addr, vn))
 		}
-		s.served[v] |= 1 << uint(ai)
-		if s.capa[v] > 0 && s.life[v] > 0 && bits.OnesCount16(s.served[v]) > s.capa[v] {
-			s.verifViol(s.verifBoundSig("served", v), fmt.Sprintf("%d distinct addresses were answered from the %s cache (capacity %d) with no probe in between", bits.OnesCount16(s.served[v]), vn, s.capa[v]))
+		s.served[v].verifSet(ai)
+		if s.capa[v] > 0 && s.life[v] > 0 && s.served[v].verifCount() > s.capa[v] {
+			s.verifViol(s.verifBoundSig("served", v), fmt.Sprintf("%d distinct addresses were answered from the %s cache (capacity %d) with no probe in between", s.served[v].verifCount(), vn, s.capa[v]))
 		}
 	} else {
 		want := net.JoinHostPort(addr, strconv.Itoa(int(port)))
@@ -378,17 +481,17 @@ func (s *verifC18Seq) verifQuery(ai int, scriptLive bool, port uint16) {
 	s.verifAfter(st)
 }
 
-func (s *verifC18Seq) verifAdvance(k int) error {
-	s.now += k
+func (s *verifC18Seq) verifAdvance(d time.Duration) error {
+	s.now += d
 	if s.c != nil {
-		if err := verifC18Backdate(s.c.ipCacheLive, time.Duration(k)*verifC18Step); err != nil {
+		if err := verifC18Backdate(s.c.ipCacheLive, d); err != nil {
 			return err
 		}
-		if err := verifC18Backdate(s.c.ipCacheNonLive, time.Duration(k)*verifC18Step); err != nil {
+		if err := verifC18Backdate(s.c.ipCacheNonLive, d); err != nil {
 			return err
 		}
 	}
-	s.verifAfter(verifC18StepRec{Op: 'a', K: int8(k)})
+	s.verifAfter(verifC18StepRec{Op: 'a', D: d})
 	return nil
 }
 
@@ -416,9 +519,9 @@ func (s *verifC18Seq) verifTrace(n int) []string {
 			if st.Probes != 1 && !st.Hit || st.Probes != 0 && st.Hit {
 				res += fmt.Sprintf("(probe calls=%d)", st.Probes)
 			}
-			l = fmt.Sprintf("query(a%d=%s:%d, host is %s) -> %s %s", st.Addr+1, verifC18Addrs[st.Addr], st.Port, verifC18VName[verifC18B2I(st.Script)], res, verifC18VName[verifC18B2I(st.Live)])
+			l = fmt.Sprintf("query(a%d=%s:%d, a probe would return %s) -> %s %s", st.Addr+1, verifC18Addrs[st.Addr], st.Port, verifC18Outcomes[st.Kind].name, res, verifC18VName[verifC18B2I(st.Live)])
 		case 'a':
-			l = fmt.Sprintf("advance %v", time.Duration(st.K)*verifC18Step)
+			l = fmt.Sprintf("advance %v", st.D)
 		case 'c':
 			l = "ClearExpiredCache()"
 		}
@@ -431,7 +534,7 @@ func (s *verifC18Seq) verifTrace(n int) []string {
 // verifShape abstracts a history to its response classes (3 bits per step, addresses dropped):
 // first probe +/-, re-probe +/-, hit +/-, advance, clear.
 func (s *verifC18Seq) verifShape() (code uint64, nontrivial bool) {
-	var seen uint16
+	var seen verifC18Bits
 	for _, st := range s.trace {
 		var c uint64
 		switch st.Op {
@@ -440,13 +543,13 @@ func (s *verifC18Seq) verifShape() (code uint64, nontrivial bool) {
 			case st.Hit:
 				c = 4 + uint64(verifC18B2I(st.Live))
 				nontrivial = true
-			case seen&(1<<uint(st.Addr)) != 0:
+			case seen.verifHas(int(st.Addr)):
 				c = 2 + uint64(verifC18B2I(st.Live))
 				nontrivial = true
 			default:
 				c = uint64(verifC18B2I(st.Live))
 			}
-			seen |= 1 << uint(st.Addr)
+			seen.verifSet(int(st.Addr))
 		case 'a':
 			c = 6
 		case 'c':
@@ -488,14 +591,13 @@ type verifC18Reporter struct {
 	written map[string]int
 }
 
-// verifFlush reports the pending violations of a finished history (unless it took implausibly long
-// in real time, in which case harness ages are not trustworthy and nothing is concluded).
+// verifFlush reports the pending violations of a finished history.
 func (rp *verifC18Reporter) verifFlush(s *verifC18Seq, phase string, extra map[string]interface{}) {
 	if len(s.viols) == 0 {
 		return
 	}
 	if ms := time.Since(s.start).Milliseconds(); ms > verifC18MaxRealMs {
-		rp.rec.Inconclusive("history took too long in real time; harness ages not trustworthy", map[string]interface{}{"ms": ms, "config": s.cfg.String()})
+		rp.rec.Inconclusive("history took too long in real time; not judged", map[string]interface{}{"ms": ms, "config": s.cfg.String()})
 		return
 	}
 	for _, v := range s.viols {
@@ -505,8 +607,13 @@ func (rp *verifC18Reporter) verifFlush(s *verifC18Seq, phase string, extra map[s
 		rp.mu.Unlock()
 		var detail interface{}
 		if full {
-			d := map[string]interface{}{"phase": phase, "config": s.cfg, "mode": s.cfg.verifMode(), "history": s.verifTrace(v.at + 1),
-				"harness": fmt.Sprintf("advance step %v; lifetimes are as configured", verifC18Step)}
+			n := v.at + 1
+			tr := s.verifTrace(n)
+			if len(tr) > 40 { // long histories: the beginning and the steps before the violation
+				tr = append(append(append([]string{}, tr[:8]...), fmt.Sprintf("… %d steps …", len(tr)-28)), tr[len(tr)-20:]...)
+			}
+			d := map[string]interface{}{"phase": phase, "config": s.cfg, "mode": s.cfg.verifMode(), "history": tr,
+				"harness": "advance = every cachedTime moved back by that much; lifetimes are as configured"}
 			for k, x := range extra {
 				d[k] = x
 			}
@@ -514,6 +621,15 @@ func (rp *verifC18Reporter) verifFlush(s *verifC18Seq, phase string, extra map[s
 		}
 		rp.rec.Violation(v.sig, v.msg, detail)
 	}
+}
+
+func (s *verifC18Seq) verifCountInto(rec *kit.Rec) {
+	rec.Count("steps_judged", len(s.trace))
+	rec.Count("cache_hits_judged", s.hits)
+	rec.Count("probes_judged", s.probes)
+	rec.Count("reprobes_of_known_address", s.reprobes)
+	rec.Count("hits_that_also_probed", s.hitWithProbe)
+	rec.Count("misses_whose_error_is_not_the_probes", s.errDiffers)
 }
 
 // ---- phase 1: every history up to length L ----------------------------------------------------------
@@ -535,7 +651,7 @@ func verifC18ExhaustiveCfgs() (full, shorter []verifC18Cfg) {
 	}
 	// no caching at all
 	full = append(full, verifC18Cfg{})
-	// one length shorter: different capacities for the two caches; non-live-only with a live capacity also set
+	// one length shorter: different capacities for the two caches; a capacity also set for the disabled cache
 	for _, p := range [][2]string{{S, L}, {L, S}} {
 		for cl := 0; cl <= 3; cl++ {
 			for cn := 0; cn <= 3; cn++ {
@@ -554,17 +670,50 @@ func verifC18ExhaustiveCfgs() (full, shorter []verifC18Cfg) {
 	return
 }
 
-// alphabet: 0..5 = query(a1..a3 × host live / not live), 6 = advance one step, 7 = clear expired
-func verifC18ApplyOp(s *verifC18Seq, op int) error {
+// alphabet: 0..5 = query(a1..a3 × host live / not live), 6 = advance one step, 7 = clear expired.
+// The error that accompanies the verdict rotates through all scripted error classes with (history, step).
+func verifC18ApplyOp(s *verifC18Seq, op int, mix int) error {
 	switch {
 	case op < 6:
-		s.verifQuery(op/2, op%2 == 0, 443)
+		ks := verifC18KindsOf[verifC18B2I(op%2 == 0)]
+		s.verifQuery(op/2, ks[mix%len(ks)], 443)
 	case op == 6:
-		return s.verifAdvance(1)
+		return s.verifAdvance(verifC18Step)
 	default:
 		s.verifClear()
 	}
 	return nil
+}
+
+// verifC18Pool runs the jobs on 4 goroutines; each gets its own sequential system.
+func verifC18Pool(t *testing.T, njobs int, run func(s *verifC18Seq, job int) error) {
+	ch := make(chan int, njobs)
+	for j := 0; j < njobs; j++ {
+		ch <- j
+	}
+	close(ch)
+	var wg sync.WaitGroup
+	var mu sync.Mutex
+	var infra error
+	for w := 0; w < 4; w++ {
+		wg.Add(1)
+		go func() {
+			defer wg.Done()
+			s := &verifC18Seq{}
+			for j := range ch {
+				if err := run(s, j); err != nil {
+					mu.Lock()
+					infra = err
+					mu.Unlock()
+					return
+				}
+			}
+		}()
+	}
+	wg.Wait()
+	if infra != nil {
+		t.Fatalf("infrastructure: %v", infra)
+	}
 }
 
 func TestVerifC18Exhaustive(t *testing.T) {
@@ -575,116 +724,298 @@ func TestVerifC18Exhaustive(t *testing.T) {
 	full, shorter := verifC18ExhaustiveCfgs()
 
 	type job struct {
-		idx    int
 		cfg    verifC18Cfg
 		maxLen int
 	}
 	var jobs []job
 	for _, c := range full {
-		jobs = append(jobs, job{len(jobs), c, maxLen})
+		jobs = append(jobs, job{c, maxLen})
 	}
 	for _, c := range shorter {
-		jobs = append(jobs, job{len(jobs), c, maxLen - 1})
+		jobs = append(jobs, job{c, maxLen - 1})
 	}
-	ch := make(chan job, len(jobs))
-	for _, j := range jobs {
-		ch <- j
-	}
-	close(ch)
-
-	var wg sync.WaitGroup
-	var mu sync.Mutex
-	var infra error
-	workers := 4
-	for w := 0; w < workers; w++ {
-		wg.Add(1)
-		go func() {
-			defer wg.Done()
-			s := &verifC18Seq{}
-			for j := range ch {
-				rec.Case(map[string]interface{}{"phase": "exhaustive", "config": j.cfg.String(), "max_len": j.maxLen})
-				shapes := map[uint64]struct{}{}
-				var evals, hits, probes, reprobes, hwp, steps, errd int
-				sampled := 0
-				for L := 1; L <= j.maxLen; L++ {
-					n := 1
+	verifC18Pool(t, len(jobs), func(s *verifC18Seq, idx int) error {
+		j := jobs[idx]
+		s.naddr = 3
+		rec.Case(map[string]interface{}{"phase": "exhaustive", "config": j.cfg.String(), "max_len": j.maxLen})
+		shapes := map[uint64]struct{}{}
+		var evals, hits, probes, reprobes, hwp, steps, errd int
+		sampled := 0
+		for L := 1; L <= j.maxLen; L++ {
+			n := 1
+			for i := 0; i < L; i++ {
+				n *= 8
+			}
+			for h := 0; h < n; h++ {
+				if err := s.verifReset(j.cfg); err != nil {
+					return fmt.Errorf("config %v: %v", j.cfg, err)
+				}
+				err := s.verifGuard(func() error {
+					x := h
+					mix := h ^ h>>3 ^ h>>7 ^ L
 					for i := 0; i < L; i++ {
-						n *= 8
+						if e := verifC18ApplyOp(s, x%8, mix+i); e != nil {
+							return e
+						}
+						x /= 8
 					}
+					return nil
+				})
+				if err != nil {
+					return err
+				}
+				rp.verifFlush(s, "exhaustive", nil)
+				evals++
+				steps += len(s.trace)
+				hits += s.hits
+				probes += s.probes
+				reprobes += s.reprobes
+				hwp += s.hitWithProbe
+				errd += s.errDiffers
+				if code, nt := s.verifShape(); nt {
+					shapes[code] = struct{}{}
+					// a few written-out histories (a different one per configuration): full length, with a
+					// cache hit, a re-probe of a known address and a time advance
+					if L == j.maxLen && sampled < 1 && s.hits > 0 && s.reprobes > 0 && s.now > 0 && h%997 == (17+idx*131)%997 && idx%9 == 2 && rec.WantSample() {
+						sampled++
+						rec.Sample(map[string]interface{}{"phase": "exhaustive", "config": j.cfg, "history": s.verifTrace(L)})
+					}
+				}
+			}
+		}
+		rec.Count("evaluations", evals)
+		rec.Count("steps_judged", steps)
+		rec.Count("cache_hits_judged", hits)
+		rec.Count("probes_judged", probes)
+		rec.Count("reprobes_of_known_address", reprobes)
+		rec.Count("hits_that_also_probed", hwp)
+		rec.Count("misses_whose_error_is_not_the_probes", errd)
+		rec.Count("configs", 1)
+		for code := range shapes {
+			rec.Distinct("nontrivial", idx, code)
+		}
+		rec.Distinct("configs", j.cfg.String())
+		return nil
+	})
+	rec.Exhaustive(fmt.Sprintf("every history of length 1..%d over {query(a1..a3) × host live/not-live, advance 20m, ClearExpiredCache} for %d configurations "+
+		"(live-only / non-live-only / both × map and LRU capacity 1..3 × lifetimes 40m/60m = 2 and 3 steps, and uncached), and of length 1..%d for %d further configurations "+
+		"(unequal capacities; capacity set for the disabled cache)", maxLen, len(full), maxLen-1, len(shorter)))
+}
+
+// ---- phase 1b: every probe outcome (verdict × error class), then every short continuation ----------------
+
+// For every configuration, every pair (k1, k2) of scripted probe outcomes and every continuation of length
+// 1..4 (quick) / 1..5 (thorough) over {query(a1), query(a2), advance 20m, ClearExpiredCache}: a1 is measured
+// with outcome k1; every later probe answers with outcome k2.
+func TestVerifC18Outcomes(t *testing.T) {
+	rec := kit.NewRec("C18", "outcomes")
+	defer rec.Close()
+	rp := &verifC18Reporter{rec: rec, written: map[string]int{}}
+	maxLen := kit.Tier(4, 5)
+	full, shorter := verifC18ExhaustiveCfgs()
+	cfgs := append(append([]verifC18Cfg{}, full...), shorter...)
+	nk := len(verifC18Outcomes)
+	verifC18Pool(t, len(cfgs), func(s *verifC18Seq, idx int) error {
+		cfg := cfgs[idx]
+		s.naddr = 2
+		rec.Case(map[string]interface{}{"phase": "outcomes", "config": cfg.String()})
+		type key struct {
+			l1, l2 bool
+			shape  uint64
+		}
+		shapes := map[key]struct{}{}
+		evals := 0
+		for k1 := 0; k1 < nk; k1++ {
+			for k2 := 0; k2 < nk; k2++ {
+				for L := 1; L <= maxLen; L++ {
+					n := 1 << uint(2*L)
 					for h := 0; h < n; h++ {
-						if err := s.verifReset(j.cfg); err != nil {
-							mu.Lock()
-							infra = fmt.Errorf("config %v: %v", j.cfg, err)
-							mu.Unlock()
-							return
+						if err := s.verifReset(cfg); err != nil {
+							return fmt.Errorf("config %v: %v", cfg, err)
 						}
 						err := s.verifGuard(func() error {
+							s.verifQuery(0, k1, 443)
 							x := h
 							for i := 0; i < L; i++ {
-								if e := verifC18ApplyOp(s, x%8); e != nil {
-									return e
+								switch x % 4 {
+								case 0:
+									s.verifQuery(0, k2, 443)
+								case 1:
+									s.verifQuery(1, k2, 443)
+								case 2:
+									if e := s.verifAdvance(verifC18Step); e != nil {
+										return e
+									}
+								default:
+									s.verifClear()
 								}
-								x /= 8
+								x /= 4
 							}
 							return nil
 						})
 						if err != nil {
-							mu.Lock()
-							infra = err
-							mu.Unlock()
-							return
+							return err
 						}
-						rp.verifFlush(s, "exhaustive", nil)
+						rp.verifFlush(s, "outcomes", map[string]interface{}{"first_probe_outcome": verifC18Outcomes[k1].name, "later_probe_outcomes": verifC18Outcomes[k2].name})
 						evals++
-						steps += len(s.trace)
-						hits += s.hits
-						probes += s.probes
-						reprobes += s.reprobes
-						hwp += s.hitWithProbe
-						errd += s.errDiffers
+						s.verifCountInto(rec)
 						if code, nt := s.verifShape(); nt {
-							shapes[code] = struct{}{}
-							// a few written-out histories (a different one per configuration): full length, with a
-							// cache hit, a re-probe of a known address and a time advance
-							if L == j.maxLen && sampled < 1 && s.hits > 0 && s.reprobes > 0 && s.now > 0 && h%997 == (17+j.idx*131)%997 && j.idx%9 == 2 && rec.WantSample() {
-								sampled++
-								rec.Sample(map[string]interface{}{"phase": "exhaustive", "config": j.cfg, "history": s.verifTrace(L)})
-							}
+							shapes[key{verifC18Outcomes[k1].live, verifC18Outcomes[k2].live, code}] = struct{}{}
+						}
+						if idx == 17 && k1 == 7 && k2 == 0 && L == maxLen && h == 0x48 && rec.WantSample() {
+							rec.Sample(map[string]interface{}{"phase": "outcomes", "config": cfg, "history": s.verifTrace(L + 1)})
 						}
 					}
 				}
-				rec.Count("evaluations", evals)
-				rec.Count("steps_judged", steps)
-				rec.Count("cache_hits_judged", hits)
-				rec.Count("probes_judged", probes)
-				rec.Count("reprobes_of_known_address", reprobes)
-				rec.Count("hits_that_also_probed", hwp)
-				rec.Count("misses_whose_error_is_not_the_probes", errd)
-				rec.Count("configs", 1)
-				for code := range shapes {
-					rec.Distinct("nontrivial", j.idx, code)
-				}
-				rec.Distinct("configs", j.cfg.String())
+				rec.Distinct("outcome_pairs", verifC18Outcomes[k1].name, verifC18Outcomes[k2].name)
 			}
-		}()
+		}
+		rec.Count("evaluations", evals)
+		rec.Count("configs", 1)
+		for k := range shapes {
+			rec.Distinct("nontrivial", idx, k.l1, k.l2, k.shape)
+		}
+		rec.Distinct("configs", cfg.String())
+		return nil
+	})
+	var names []string
+	for _, o := range verifC18Outcomes {
+		names = append(names, o.name)
 	}
-	wg.Wait()
-	if infra != nil {
-		t.Fatalf("infrastructure: %v", infra)
+	rec.Exhaustive(fmt.Sprintf("for %d configurations × every ordered pair of the %d probe outcomes %v: measure a1 with the first, then every continuation of length 1..%d over "+
+		"{query(a1), query(a2) (a probe answers with the second outcome), advance 20m, ClearExpiredCache}", len(cfgs), nk, names, maxLen))
+}
+
+// ---- phase 1c: ages densely around the configured lifetime, many entries ----------------------------------
+
+// fractions of the lifetime at which the entries are queried (plus the exact points L-1ns, L, L+1ns)
+var verifC18Fractions = []float64{0.50, 0.90, 0.93, 0.95, 0.96, 0.97, 0.98, 0.99, 0.995, 0.999,
+	1.0, 1.001, 1.005, 1.01, 1.015, 1.02, 1.025, 1.03, 1.035, 1.04, 1.045, 1.049, 1.05, 1.06, 1.08, 1.10, 1.50}
+
+func TestVerifC18Boundary(t *testing.T) {
+	rec := kit.NewRec("C18", "boundary")
+	defer rec.Close()
+	rp := &verifC18Reporter{rec: rec, written: map[string]int{}}
+	n := kit.Tier(128, 512) // entries per (configuration, age)
+	lifetimes := []string{"2s", "90s", "40m", "2h", "26h"}
+	pairs := [][2]string{{"2s", "90s"}, {"90s", "2s"}, {"40m", "2h"}, {"2h", "40m"}, {"26h", "26h"}}
+	var cfgs []verifC18Cfg
+	for _, kind := range []int{0, n, n / 4} { // map, LRU that holds every entry, LRU that has to evict half of what it is given
+		for _, L := range lifetimes {
+			cfgs = append(cfgs, verifC18Cfg{DurLive: L, CapLive: kind}, verifC18Cfg{DurNon: L, CapNon: kind})
+		}
+		for _, p := range pairs {
+			cfgs = append(cfgs, verifC18Cfg{DurLive: p[0], CapLive: kind, DurNon: p[1], CapNon: kind})
+		}
 	}
-	rec.Exhaustive(fmt.Sprintf("every history of length 1..%d over {query(a1..a3) × host live/not-live, advance 20m, ClearExpiredCache} for %d configurations "+
-		"(live-only / non-live-only / both × map and LRU capacity 1..3 × lifetimes 30m/50m, and uncached), and of length 1..%d for %d further configurations "+
-		"(unequal capacities; capacity set for the disabled cache)", maxLen, len(full), maxLen-1, len(shorter)))
+	var earlyMu sync.Mutex
+	earlyByFrac := map[string]int{}
+	verifC18Pool(t, len(cfgs), func(s *verifC18Seq, idx int) error {
+		cfg := cfgs[idx]
+		s.naddr = n
+		rec.Case(map[string]interface{}{"phase": "boundary", "config": cfg.String(), "entries": n})
+		// the ages: every fraction of every configured lifetime, and the exact points around it
+		type age struct {
+			d    time.Duration
+			desc string
+		}
+		var ages []age
+		seenAge := map[time.Duration]bool{}
+		for v := 0; v < 2; v++ {
+			L := [2]time.Duration{verifC18Life(cfg.DurNon), verifC18Life(cfg.DurLive)}[v]
+			if L == 0 {
+				continue
+			}
+			add := func(d time.Duration, desc string) {
+				if !seenAge[d] {
+					seenAge[d] = true
+					ages = append(ages, age{d, desc})
+				}
+			}
+			for _, f := range verifC18Fractions {
+				add(time.Duration(float64(L)*f), fmt.Sprintf("%.3f × %s lifetime %v", f, verifC18VName[v], L))
+			}
+			add(L-1, fmt.Sprintf("%s lifetime %v - 1ns", verifC18VName[v], L))
+			add(L, fmt.Sprintf("exactly the %s lifetime %v", verifC18VName[v], L))
+			add(L+1, fmt.Sprintf("%s lifetime %v + 1ns", verifC18VName[v], L))
+		}
+		for ai, a := range ages {
+			if err := s.verifReset(cfg); err != nil {
+				return fmt.Errorf("config %v: %v", cfg, err)
+			}
+			var hitsAt, expectServable, early int
+			err := s.verifGuard(func() error {
+				// measure n addresses: the verdict alternates, the error class rotates
+				for i := 0; i < n; i++ {
+					ks := verifC18KindsOf[i%2]
+					s.verifQuery(i, ks[(i/2+ai)%len(ks)], 443)
+				}
+				if e := s.verifAdvance(a.d); e != nil {
+					return e
+				}
+				if ai%3 == 1 {
+					s.verifClear() // a clean-up at this age must not change what may be served
+				}
+				// query them again, most recently stored first for the bounded LRU (so that the survivors are asked before they are pushed out)
+				for i := n - 1; i >= 0; i-- {
+					v := i % 2
+					before := s.hits
+					s.verifQuery(i, verifC18KindsOf[v][0], 443)
+					if s.hits > before {
+						hitsAt++
+					} else if s.life[v] > 0 && (s.capa[v] == 0 || s.capa[v] >= n) && a.d+time.Since(s.start) < s.life[v] {
+						// not served although even harness age + ALL real time since the tester was built is below the
+						// configured lifetime, in a cache that cannot have evicted it: dropped early.  Legal; counted.
+						early++
+					}
+					if s.life[v] > 0 && a.d < s.life[v] {
+						expectServable++
+					}
+				}
+				return nil
+			})
+			if err != nil {
+				return err
+			}
+			s.earlyDrops = early
+			rp.verifFlush(s, "boundary", map[string]interface{}{"age": a.d.String(), "age_is": a.desc, "entries": n})
+			rec.Count("evaluations", 1)
+			rec.Count("boundary_entries_judged", n)
+			rec.Count("boundary_entries_dropped_before_configured_lifetime", early)
+			rec.Count("boundary_entries_younger_than_lifetime", expectServable)
+			rec.Count("boundary_entries_answered_from_cache", hitsAt)
+			if early > 0 {
+				earlyMu.Lock()
+				earlyByFrac[a.desc] += early
+				earlyMu.Unlock()
+			}
+			s.verifCountInto(rec)
+			if hitsAt > 0 || s.reprobes > 0 {
+				rec.Distinct("nontrivial", cfg.String(), a.d)
+			}
+			if idx == 3 && (a.d == s.life[0] || a.d == s.life[0]-1) && rec.WantSample() {
+				rec.Sample(map[string]interface{}{"phase": "boundary", "config": cfg, "entries": n, "age_of_every_entry": a.desc, "answered_from_cache": hitsAt, "probed_again": n - hitsAt,
+					"first_steps": s.verifTrace(3), "last_steps": s.verifTrace(len(s.trace))[len(s.trace)-3:]})
+			}
+		}
+		rec.Count("configs", 1)
+		rec.Distinct("configs", cfg.String())
+		return nil
+	})
+	if len(earlyByFrac) > 0 {
+		rec.Note(fmt.Sprintf("entries dropped BEFORE the configured lifetime (legal, counted only), by age: %v", earlyByFrac))
+	}
+	rec.Exhaustive(fmt.Sprintf("%d configurations (map / LRU holding all / LRU holding half × live-only, non-live-only, both × lifetimes %v) × every age in %v × lifetime and L-1ns, L, L+1ns × %d entries each",
+		len(cfgs), lifetimes, verifC18Fractions, n))
 }
 
 // ---- phase 2: random histories of length 200 over 8 addresses ------------------------------------------
 
-func verifC18RandCfg(rng *rand.Rand) verifC18Cfg {
-	durs := []string{"", verifC18Short, verifC18Long}
+func verifC18RandCfg(rng *rand.Rand, durs []string) verifC18Cfg {
 	caps := []int{0, 0, 1, 2, 3, 4, 5, 7}
 	var c verifC18Cfg
 	for {
-		c = verifC18Cfg{DurLive: durs[rng.Intn(3)], DurNon: durs[rng.Intn(3)], CapLive: caps[rng.Intn(len(caps))], CapNon: caps[rng.Intn(len(caps))]}
+		c = verifC18Cfg{DurLive: durs[rng.Intn(len(durs))], DurNon: durs[rng.Intn(len(durs))], CapLive: caps[rng.Intn(len(caps))], CapNon: caps[rng.Intn(len(caps))]}
 		if c.DurLive != "" || c.DurNon != "" || rng.Intn(20) == 0 {
 			return c
 		}
@@ -698,10 +1029,11 @@ func TestVerifC18Random(t *testing.T) {
 	rng := kit.Rand("c18-random")
 	n := kit.Tier(20000, 250000)
 	const length = 200
-	s := &verifC18Seq{}
+	s := &verifC18Seq{naddr: 8}
 	ports := []uint16{443, 443, 443, 80, 8443}
+	durs := []string{"", "", verifC18Short, verifC18Long, verifC18Short, verifC18Long, "90s", "2h", "2s"}
 	for i := 0; i < n; i++ {
-		cfg := verifC18RandCfg(rng)
+		cfg := verifC18RandCfg(rng, durs)
 		hseed := rng.Int63()
 		hr := rand.New(rand.NewSource(hseed))
 		if i%1000 == 0 {
@@ -728,9 +1060,26 @@ func TestVerifC18Random(t *testing.T) {
 					if hr.Float64() < pFlip {
 						host[a] = !host[a]
 					}
-					s.verifQuery(a, host[a], ports[hr.Intn(len(ports))])
+					ks := verifC18KindsOf[verifC18B2I(host[a])]
+					kind := ks[0]
+					if hr.Intn(2) == 0 {
+						kind = ks[hr.Intn(len(ks))]
+					}
+					s.verifQuery(a, kind, ports[hr.Intn(len(ports))])
 				case r < 90:
-					if e := s.verifAdvance([]int{1, 1, 1, 2, 3}[hr.Intn(5)]); e != nil {
+					d := time.Duration([]int{1, 1, 1, 2, 3}[hr.Intn(5)]) * verifC18Step
+					if hr.Intn(2) == 0 {
+						// aim at the boundary: bring the latest measurement of some address to f × its lifetime
+						a, v := hr.Intn(naddr), hr.Intn(2)
+						if s.life[v] > 0 && s.last[a][v] >= 0 {
+							f := verifC18Fractions[hr.Intn(len(verifC18Fractions))]
+							target := time.Duration(float64(s.life[v])*f) + time.Duration(hr.Intn(3)-1)
+							if cur := s.now - s.last[a][v]; target > cur {
+								d = target - cur
+							}
+						}
+					}
+					if e := s.verifAdvance(d); e != nil {
 						return e
 					}
 				default:
@@ -744,12 +1093,7 @@ func TestVerifC18Random(t *testing.T) {
 		}
 		rp.verifFlush(s, "random", map[string]interface{}{"index": i, "history_seed": hseed})
 		rec.Count("evaluations", 1)
-		rec.Count("steps_judged", len(s.trace))
-		rec.Count("cache_hits_judged", s.hits)
-		rec.Count("probes_judged", s.probes)
-		rec.Count("reprobes_of_known_address", s.reprobes)
-		rec.Count("hits_that_also_probed", s.hitWithProbe)
-		rec.Count("misses_whose_error_is_not_the_probes", s.errDiffers)
+		s.verifCountInto(rec)
 		if s.hits > 0 && s.reprobes > 0 {
 			rec.Distinct("nontrivial", cfg.String(), hseed)
 		}
@@ -802,7 +1146,7 @@ func TestVerifC18Concurrent(t *testing.T) {
 	written := map[string]int{}
 
 	for sc := 0; sc < scenarios; sc++ {
-		cfg := verifC18RandCfg(rng)
+		cfg := verifC18RandCfg(rng, []string{"", verifC18Short, verifC18Long})
 		if sc < 8 { // make sure the small bounded LRUs and the mixed configurations are always there
 			cfg = []verifC18Cfg{
 				{DurLive: verifC18Short, CapLive: 1, DurNon: verifC18Long, CapNon: 1},
@@ -903,7 +1247,9 @@ func TestVerifC18Concurrent(t *testing.T) {
 							if w.rng.Intn(10) == 0 {
 								w.nextLive = !w.nextLive // the host answers differently to this one probe
 							}
-							w.nextErr = &verifC18ProbeErr{n: k, live: w.nextLive, plain: w.nextLive && k%2 == 1}
+							// the error that accompanies the verdict: any scripted class (read-only table)
+							ks := verifC18KindsOf[verifC18B2I(w.nextLive)]
+							w.nextErr = verifC18Outcomes[ks[w.rng.Intn(len(ks))]].err
 							w.calls = 0
 							gotLive, err := tester.PhantomIsLive(addr, port)
 							ret := int64(time.Since(base))
